@@ -29,8 +29,10 @@ P("C02", "proof", "Lean 4 theorems (decomposition after the prefix = split-based
   "kinds are produced, with payload and what follows (C02b.disk_iff, verbatim_disk_iff, device_ns_iff); the header "
   "every kind requires (C02b.kind_header); the not(...) guards of prefix_verbatim are redundant where it is called "
   "(prefixVerbatim_guards_redundant). "
-  "Partial: exact conditions for the UNC, verbatim and verbatim-UNC kinds (the fall-through corners `\\\\?\\` alone, "
-  "`\\\\?\\UNC\\` without a server, `\\\\.\\` without a device, which the documentation leaves open) are NOT "
+  "Exact conditions also for UNC and verbatim-UNC prefixes with a share and verbatim prefixes with a name other than "
+  "`UNC` (Win.unc_complete_iff, Win.verbatim_unc_complete_iff, Win.verbatim_named_iff). "
+  "Partial: exact conditions for the incomplete corners only (`\\\\?\\` alone, `\\\\server` without a share, "
+  "`\\\\?\\UNC\\` without a server, `\\\\.\\` without a device, blank verbatim name, which the documentation leaves open) are NOT "
   "proved; for the full classification the harness's independent grammar (spec.rs win_prefix, "
   "DESIGN A.2, validated on 205k inputs in the design round) is compared with the implementation on the near-miss "
   "domain (11-letter alphabet, all 256 drive bytes, 21 prefix seeds x tails) on every run. Model=code by differential "
@@ -38,8 +40,9 @@ P("C02", "proof", "Lean 4 theorems (decomposition after the prefix = split-based
   theorems=["TP.C02.win_decomp", "TP.C02.win_prefix_unique_first", "TP.C02.win_prefix_raw", "TP.C02.win_drive_ascii_upper",
             "TP.C02.kind_sets_eq", "TP.C02.win_queries", "TP.C02.compsT_eq_bodySpec",
             "TP.C02b.disk_iff", "TP.C02b.verbatim_disk_iff", "TP.C02b.device_ns_iff", "TP.C02b.kind_header",
-            "TP.C02b.prefixVerbatim_guards_redundant", "TP.C02b.takeNormal_iff"],
-  modules=["TypedPathVerif.Props.C02b"],
+            "TP.C02b.prefixVerbatim_guards_redundant", "TP.C02b.takeNormal_iff",
+            "TP.Win.unc_complete_iff", "TP.Win.verbatim_unc_complete_iff", "TP.Win.verbatim_named_iff", "TP.Win.parsePrefix_alts"],
+  modules=["TypedPathVerif.Props.C02b", "TypedPathVerif.Lemmas.WinStable"],
   rule=NONTRIV + "non-trivial = prefix or at least two components", design_ref="§5 C02")
 
 P("C03", "proof", "Lean 4 theorems (induction over tokens and over the step list) + model/code correspondence",
@@ -140,18 +143,27 @@ P("C08", "proof", "Lean 4 theorems (model push = documented rule table, byte-exa
             "TP.C08.pushes_follow_rules", "TP.C08.win_push_K3_witness", "TP.C08.wPrefix_eq", "TP.C08.wIsOnlyDisk_eq", "TP.C08.hasRoot_no_prefix"],
   rule=NONTRIV + "bases x arguments; non-trivial = non-empty argument", design_ref="§5 C08")
 
-P("C09", "proof", "Lean 4 theorems (law B of the back parser, byte-prefix lemma) + model/code correspondence; Windows byte-level re-parse clause by correspondence only",
+P("C09", "proof", "Lean 4 theorems (law B of the back parser, byte-prefix lemma, law R incl. stability of every complete Windows prefix under truncation, ancestors chain with fuel adequacy) + model/code correspondence",
   "Proved in Lean for both encodings and every byte string: parent is absent exactly when the component list is empty "
   "or ends in a root or prefix (parent_none_iff); otherwise the state it returns holds the original components without "
-  "the last (parent_state_comps), the returned bytes are a leading slice of the input (parent_is_prefix) and pop "
-  "truncates to exactly that slice, false/unchanged otherwise (pop_eq_parent). For Unix the parent's bytes re-parse to "
-  "the components minus the last and agree with StdSpec (unix_parent_comps, unix_parent_vs_std).",
-  "Partial: for Windows, that the returned *bytes* re-parse to those components (stability of the prefix parse under "
-  "truncation) is not proved; it is checked by the correspondence and the oracle on every run. ancestors is modelled "
-  "with fuel |b|+1 (adequacy of the fuel is checked by correspondence, not proved). UTF-8/typed forms: oracle. "
-  "Model=code by differential testing.",
+  "the last (parent_state_comps), the returned bytes are a leading slice of the input (parent_is_prefix), strictly "
+  "shorter (parent_shorter), and pop truncates to exactly that slice, false/unchanged otherwise (pop_eq_parent); "
+  "ancestors is the path followed by its successive parents and ends at the first path without a parent, the fuel "
+  "never running out (ancestors_chain). Re-parse clause: for Unix the parent's bytes re-parse to the components minus "
+  "the last and agree with StdSpec (unix_parent_comps, unix_parent_vs_std); for every well-formed Windows path — one "
+  "that does not start like a prefix, or has a complete prefix of any of the six kinds — the same holds and the parent "
+  "is again well-formed (win_parent_comps), so every ancestor's components are an initial segment of the path's "
+  "(win_ancestors_comps, unix_ancestors_comps). Underneath: every complete prefix is re-parsed identically whatever "
+  "tolerated bytes follow it (Win.stable_of_complete, from exact iff characterisations of all six kinds).",
+  "Windows paths outside Win.WF — starting with two separators or `X:` without forming a complete prefix (`\\\\server`, "
+  "`\\\\?\\`, `\\\\?\\UNC`, K3's `\\\\a`) — are not covered by the re-parse theorem (the incomplete prefixes really are "
+  "unstable: examples in Lemmas/WinStable.lean); there the clause is decided by correspondence + oracle. UTF-8/typed "
+  "forms: oracle. Model=code by differential testing.",
   theorems=["TP.C09.parent_none_iff", "TP.C09.parent_state_comps", "TP.C09.parent_is_prefix", "TP.C09.pop_eq_parent",
-            "TP.C09.unix_parent_comps", "TP.C09.unix_parent_vs_std"],
+            "TP.C09.unix_parent_comps", "TP.C09.unix_parent_vs_std",
+            "TP.C09b.win_parent_comps", "TP.C09b.parent_shorter", "TP.C09b.ancestors_chain",
+            "TP.C09b.win_ancestors_comps", "TP.C09b.unix_ancestors_comps", "TP.Win.stable_of_complete", "TP.Win.win_reparse"],
+  modules=["TypedPathVerif.Props.C09b"],
   rule=NONTRIV + "non-trivial = prefix or >= 2 components", design_ref="§5 C09")
 
 P("C10", "proof", "Lean 4 theorems for Unix (laws F/R + append lemma) + model/code correspondence; Windows clauses partial (known findings K2, K3), decided by oracle",
